@@ -42,7 +42,16 @@ def compare_run(inp, impl_out, model_out):
     a, b = norm_fault(impl_out), norm_fault(model_out)
     if a.startswith('res=fault') or b.startswith('res=fault'):
         return a.split(' ')[0] == b.split(' ')[0]
-    return a == b
+    ta, tb = a.split(' '), b.split(' ')
+    if len(ta) != len(tb):
+        return False
+    for x, y in zip(ta, tb):
+        if x.startswith('snap=') and y.startswith('snap='):
+            if not compare_state('', x[5:].replace('!', ' '), y[5:].replace('!', ' ')):
+                return False
+        elif x != y:
+            return False
+    return True
 
 
 def run_nontrivial(inp, outp):
@@ -156,6 +165,7 @@ PROPS = {
                      'non-trivial = a controlled run in which a snapshot was taken; distinct = distinct (history, placement, completion order)',
                 explanation='PARTIAL: the theorem covers every schedule of the lock-discipline model; its tie to the code is schedule exploration (testing) and parking_lot::RwLock is assumed correct. '
                             'A timeout can only make the harness miss a defect (a slow reader looks blocked), never invent one.'),
+    'C01': strat_prop('C01'),
     'C03': strat_prop('C03'),
     'C06': strat_prop('C06'),
     'C07': strat_prop('C07'),
